@@ -1175,6 +1175,10 @@ CaseX86M_GPB_MulDiv:
       break;
 
     case InstDB::kEncodingX86Call:
+      // A 16-bit register or word memory operand needs the operand-size override prefix.
+      if ((isign3 == ENC_OPS1(Reg) || isign3 == ENC_OPS1(Mem)) && o0.x86_rm_size() == 2)
+        opcode |= Opcode::kPP_66;
+
       if (isign3 == ENC_OPS1(Reg)) {
         rb_reg = o0.id();
         goto EmitX86R;
@@ -1490,6 +1494,10 @@ CaseX86M_GPB_MulDiv:
       goto EmitJmpCall;
 
     case InstDB::kEncodingX86Jmp:
+      // A 16-bit register or word memory operand needs the operand-size override prefix.
+      if ((isign3 == ENC_OPS1(Reg) || isign3 == ENC_OPS1(Mem)) && o0.x86_rm_size() == 2)
+        opcode |= Opcode::kPP_66;
+
       if (isign3 == ENC_OPS1(Reg)) {
         rb_reg = o0.id();
         goto EmitX86R;
